@@ -103,15 +103,21 @@ def h10b(e):
         cv = None if cut_mode == "none" else (float("inf") if cut_mode == "inf" else float(concrete(np.array([cutoff], dtype=object), env)[0]))
         msgs = conc_wrapper(POS2, cell, pbc, cv)
         if not msgs:
-            # the witness cutoff may not expose the clamp/bypass on these two atoms: scan a few cutoffs and atom pairs
-            for cv2 in (0.5, 2.0, 4.5, 6.0, 9.0, 12.0):
-                for P in (POS2, np.array([[0.3, 0.2, 0.1], [0.4, 0.3, 8.0]]), np.array([[0.1, 0.1, 0.1], [2.9, 0.2, 0.3], [1.5, 1.7, 6.9]])):
-                    if cut_mode != "symbolic":
-                        continue
-                    msgs = conc_wrapper(P, cell, pbc, cv2)
+            # the witness may not expose a cutoff clamp/bypass on these two atoms in this cell: a small family of geometries
+            # (the given cell, an obtuse hexagonal and a sheared cell; pairs near and far) and cutoffs through the public wrapper
+            cuts = (0.5, 2.0, 4.5, 6.0, 9.0, 12.0) if cut_mode == "symbolic" else (cv,)
+            geoms = [(cell, P) for P in (POS2, np.array([[0.3, 0.2, 0.1], [0.4, 0.3, 8.0]]), np.array([[0.1, 0.1, 0.1], [2.9, 0.2, 0.3], [1.5, 1.7, 6.9]]))]
+            if cell is not None:
+                hexc = np.array([[4.0, 0, 0], [-2.0, 2 * 3 ** 0.5, 0], [0, 0, 3.0]])
+                shear = np.array([[3.0, 0, 0], [-2.5, 3.0, 0], [-1.0, -2.0, 4.0]])
+                geoms += [(hexc, np.array([[0, 0, 0], [1 / 3, 2 / 3, 0.5]]) @ hexc), (shear, np.array([[0.1, 0.1, 0.1], [0.6, 0.55, 0.5]]) @ shear)]
+            for cv2 in cuts:
+                for cl, P in geoms:
+                    msgs = conc_wrapper(P, cl, pbc, cv2)
                     if msgs:
                         return {"key": f"H10b:{cex.label}", "what": f"get_displacement_tensor(pbc={pbc}, cutoff={cv2}): " + "; ".join(msgs[:2]),
-                                "replay": {"kind": "wrapper", "positions": P, "cell": None if cell is None else cell, "pbc": pbc if isinstance(pbc, bool) else list(pbc), "cutoff": cv2}, "reproduced": True}
+                                "replay": {"kind": "wrapper", "positions": P, "cell": None if cl is None else cl, "pbc": pbc if isinstance(pbc, bool) else list(pbc),
+                                           "cutoff": "inf" if cv2 == float("inf") else cv2}, "reproduced": True}
         return {"key": f"H10b:{cex.label}", "what": f"get_displacement_tensor(pbc={pbc}, cutoff={cv}): " + "; ".join(msgs[:2]),
                 "replay": {"kind": "wrapper", "positions": POS2, "cell": None if cell is None else cell, "pbc": pbc if isinstance(pbc, bool) else list(pbc), "cutoff": "inf" if cv == float("inf") else cv},
                 "reproduced": bool(msgs)}
@@ -149,7 +155,7 @@ def h10b(e):
 def h10c(e):
     """get_distances: the radii-corrected matrix is the minimum-image matrix minus r_i + r_j; all-False pbc goes through
     the same table"""
-    pbc = e.pick([(True, True, True), (True, False, False), (False, False, False)])
+    pbc = e.pick([(True, True, True), (True, False, False), (False, True, True), (False, False, False)])
     n = 2
     D = np.array([[SReal.const(0), e.real("d01", lo=0)], [None, SReal.const(0)]], dtype=object)
     D[1, 0] = D[0, 1]
@@ -170,13 +176,46 @@ def h10c(e):
         dist = G.get_distances(at, radii=radii)
 
     def cex(env):
-        return {"key": "H10c:get_distances", "what": "get_distances does not return the minimum-image matrix minus the radii", "replay": {"kind": "none"}, "reproduced": False}
+        msgs = conc_distances(pbc)
+        return {"key": "H10c:get_distances", "what": f"get_distances(pbc={list(pbc)}): " + ("; ".join(msgs[:2]) or "not the minimum-image matrix minus the radii"),
+                "replay": {"kind": "distances", "pbc": list(pbc)}, "reproduced": bool(msgs)}
+    c0 = calls[0] if calls else {}
+    fw_pbc = c0.get("pbc")
+    fw_pbc = [bool(fw_pbc)] * 3 if isinstance(fw_pbc, (bool, np.bool_)) else (list(np.asarray(fw_pbc, dtype=bool)) if fw_pbc is not None else None)
+    cell_ok = c0.get("cell") is not None and all(bool(zbool(a == b)) if isinstance(a, SReal) else float(a) == float(b) for a, b in zip(np.ravel(np.asarray(c0.get("cell"), dtype=object)), np.ravel(at.cell)))
+    e.post("the table is evaluated with the structure's own periodicity (and cell, if any axis is periodic)",
+           bool(calls) and (fw_pbc == list(pbc) if any(pbc) else not any(fw_pbc or [False])) and (cell_ok or not any(pbc)), cex)
     e.post("one table evaluation with an unbounded cutoff", len(calls) == 1 and calls[0]["rd"] and (calls[0]["cutoff"] is None or float(calls[0]["cutoff"]) == float("inf")), cex)
     M = dist.dist_matrix_radii_mic
     e.post("radii-corrected matrix = distances - r_i - r_j", z3.And(*[zbool(M[i, j] == D[i, j] - radii[i] - radii[j]) for i in range(n) for j in range(n)]), cex)
     e.post("raw matrix kept", all(dist.dist_matrix_mic[i, j] is D[i, j] or bool(zbool(dist.dist_matrix_mic[i, j] == D[i, j])) for i in range(n) for j in range(n)), cex)
     e.reach("H10c")
     e.sample({"pbc": list(pbc)})
+
+
+def conc_distances(pbc):
+    """public get_distances on a concrete structure with pairs across the cell boundary vs the brute-force table"""
+    from ase import Atoms
+    from ase.data import covalent_radii
+    cellv = np.array([[3.0, 0, 0], [0.5, 3.5, 0], [0, 0.7, 6.0]])
+    fr = np.array([[0.05, 0.07, 0.04], [0.93, 0.95, 0.9], [0.5, 0.45, 0.55]])
+    at = Atoms(numbers=[6, 8, 14], scaled_positions=fr, cell=cellv, pbc=pbc)
+    msgs = []
+    try:
+        d = G.get_distances(at)
+    except Exception as ex:
+        return [f"get_distances raised {type(ex).__name__}: {ex}"]
+    ref = mic_bruteforce(at.get_positions(), cellv, list(pbc))
+    r = covalent_radii[at.get_atomic_numbers()]
+    if not np.allclose(d.dist_matrix_mic, ref, atol=1e-9):
+        i, j = np.unravel_index(np.argmax(np.abs(d.dist_matrix_mic - ref)), ref.shape)
+        msgs.append(f"pair ({i},{j}): reported distance {d.dist_matrix_mic[i, j]:.6g}, true minimum-image distance {ref[i, j]:.6g}")
+    if not np.allclose(d.dist_matrix_radii_mic, ref - r[:, None] - r[None, :], atol=1e-9):
+        msgs.append("radii-corrected matrix is not the minimum-image matrix minus r_i + r_j")
+    if not np.allclose(d.disp_tensor_mic, at.get_positions()[:, None, :] - at.get_positions()[None, :, :] - d.disp_factors @ cellv, atol=1e-9) or \
+            np.abs(d.disp_factors[:, :, [k for k in range(3) if not pbc[k]]]).max(initial=0) != 0:
+        msgs.append("displacements are not r_i - r_j - factor.cell with factors vanishing along non-periodic axes")
+    return msgs
 
 
 # ---------------------------------------------------------------------------------- driver
@@ -256,6 +295,9 @@ def replay(d):
         built = X.compile_all(("replay_native",))
         cut = float("inf") if d["cutoff"] == "inf" else float(d["cutoff"])
         msgs, _ = X.oracle_dt(built["replay_native"][0], X.CELLS[d["cell"]], d["pbc"], cut, d["f"])
+        return bool(msgs), "; ".join(msgs[:5]) or "ok"
+    if d["kind"] == "distances":
+        msgs = conc_distances(tuple(d["pbc"]))
         return bool(msgs), "; ".join(msgs[:5]) or "ok"
     if d["kind"] == "wrapper":
         cut = float("inf") if d["cutoff"] == "inf" else d["cutoff"]
